@@ -349,8 +349,20 @@ class Symex:
         self._modinit = {}
         self.fresh_n = 0
         self.on_start = None
+        # instance_memo (opt-in): methods under the library's per-instance memoising decorators (``cached_member``: keyed by
+        # the arguments with defaults filled in; ``cached_property``) are evaluated once per receiver record and argument
+        # tuple; the table lives ON the record (attributes ``_function_cache`` / ``_property_cache``, as misc.py keeps
+        # them), so it follows the record through a call history and code that replaces or clears these attributes
+        # invalidates it
+        self.instance_memo = False
 
     # ------------------------------------------------------------------ driving
+    def run_script(self, script):
+        """Call history written by the rule: ``script(sx)`` drives the evaluator through its own operations
+        (``sx.getattr(record, name, None)``, ``sx.call_method(record, name, args, kw, None)``) on records it creates
+        (fresh per path); all paths are explored like for ``run``, ``Outcome.value`` is what the script returns."""
+        return self._explore(lambda: script(self))
+
     def run(self, ref, make_args, self_obj=None):
         """All outcomes of the function ``module:Qual`` on the arguments built
         by ``make_args()`` (a fresh dict per path)."""
@@ -1981,6 +1993,11 @@ class Symex:
                     raise Raised("TypeError", "unhashable argument of a memoised function", node)
                 if memo_key in self.memo_state:
                     return self.memo_state[memo_key]
+            if self.instance_memo and not top:
+                kind = _instance_memo_kind(fn)
+                items = list(frame.items())
+                if kind is not None and items and isinstance(items[0][1], Obj):
+                    return self._invoke_instance_memo(fn, kind, items, node)
             is_gen = getattr(fn, "_sx_is_gen", None)
             if is_gen is None:   # cached on the node: the walk dominates the cost of small inlined helpers
                 is_gen = fn._sx_is_gen = any(isinstance(x, (ast.Yield, ast.YieldFrom)) for x in _walk_noscope(fn))
@@ -2001,6 +2018,34 @@ class Symex:
         finally:
             self.frames, self.module = saved
             self.depth -= 1
+
+    def _invoke_instance_memo(self, fn, kind, items, node):
+        """Body of a ``cached_member`` / ``cached_property`` method (frames already set up by ``_invoke``): the result is
+        looked up in / stored into the table kept on the receiver record."""
+        recv = items[0][1]
+        attr = "_function_cache" if kind == "member" else "_property_cache"
+        store = recv.attrs.get(attr)
+        if not isinstance(store, dict):
+            store = recv.attrs[attr] = {}
+        if kind == "member":
+            table = store.get(fn.name)
+            if not isinstance(table, dict):
+                table = store[fn.name] = {}
+            key = tuple(v for _, v in items[1:])
+        else:
+            table, key = store, getattr(fn, "_qual", fn.name)
+        try:
+            if key in table:
+                return table[key]
+        except TypeError:
+            raise Raised("TypeError", "unhashable argument of a memoised method", node)
+        try:
+            self.block(fn.body)
+            r = None
+        except _Return as r_:
+            r = r_.v
+        table[key] = r
+        return r
 
     def ext_call(self, name, args, kw, node):
         short = name.split(".")[-1]
@@ -2853,6 +2898,16 @@ def _is_memoised(fn):
         m = fn._sx_memoised = any(U(d).split("(")[0].split(".")[-1] in ("lru_cache", "cache")
                                   for d in getattr(fn, "decorator_list", ()))
     return m
+
+
+def _instance_memo_kind(fn):
+    """'member' | 'property' | None: the method carries a per-instance memoising decorator."""
+    k = getattr(fn, "_sx_instance_memo", 0)
+    if k == 0:
+        names = [U(d).split("(")[0].split(".")[-1] for d in getattr(fn, "decorator_list", ())]
+        k = "member" if "cached_member" in names else "property" if "cached_property" in names else None
+        fn._sx_instance_memo = k
+    return k
 
 
 def _walk_noscope(fn):
